@@ -74,6 +74,10 @@ class TermScn:
             elif st == "dead":
                 vworld.signal_proc(procs[host], 9)
                 em.sleep(0.5)
+            for gid in P.get("pre_exit", ()):
+                # a member that was exit()ed earlier (not yet joined) is still terminate()'s business
+                g[gid].exit()
+                em.sleep(P.get("pre_exit_pause", 0.0))
             w.exploring = True
             t0 = w.now
             try:
@@ -283,6 +287,17 @@ def run(tier: str, only=None) -> int:
                         n += 1
                         bounds = {"ps": 1, "free": 1} if (topo == "popen" or tier == "thorough") else {"ps": 0, "free": 1}
                         harness.run_exploration(rep, PID, name, TermScn, P, bounds, max_execs=cap, horizon=60000)
+    # members that were exit()ed before terminate() is called (right before / a while before)
+    for topo in TOPOLOGIES:
+        for state in ("idle", "sleep", "swallow"):
+            for pause in (0.0, 1.0):
+                name = f"term-after-exit/{topo}:{state}:pause{pause}"
+                if only and only not in name:
+                    continue
+                if tier == "quick" and state == "sleep":
+                    continue
+                P = {"topo": topo, "model": "thread", "state": state, "timeout": 0.5, "moment": "settled", "pre_exit": ["a"], "pre_exit_pause": pause}
+                harness.run_exploration(rep, PID, name, TermScn, P, {"ps": 0, "free": 1} if tier == "quick" else {"ps": 1, "free": 1}, max_execs=cap, horizon=60000)
     # a failing makegateway (id taken, sequentially or by a concurrent call) leaves no process behind
     from .c20_specs_ids import IdScn
     from .c20_specs_ids import stmt_pred as id_stmt_pred
